@@ -212,7 +212,13 @@ def ev(f, e, env, locals_=None, depth=0):
                 pt = facts.tyi(h, p_.get("t")) or {}
                 if pt.get("k") not in ("int", "bool", "enum"):
                     if env.get("__termfn2__") is not None and pt.get("k") in ("ref", "ptr"):
-                        continue        # an object handed on by reference: what is read from it is served by __termfn2__
+                        # an object handed on by reference: what is read from it is served by __termfn2__; when the caller's
+                        # __termfn2__ gives the object itself a value (an abstract key member) the parameter stands for it
+                        try:
+                            henv[p_["var"]] = ev(f, a_, env, locals_, depth + 1)
+                        except Unknown:
+                            pass
+                        continue
                     raise Unknown("call %s with a non-integer argument" % e.get("cname"))
                 henv[p_["var"]] = wrap(ev(f, a_, env, locals_, depth + 1), pt)
             r = run_body(h, h["body"], henv)
